@@ -67,7 +67,7 @@ func vSlot(kind int, vary bool) string {
 	return string(out)
 }
 
-var vAliases = []string{"", ".", "_", "x", "x9", "\xcf\x80"}
+var vAliases = []string{"_x", "__", "_1", "", ".", "_", "x", "x9", "\xcf\x80"}
 
 // vString returns an import path literal with symbolic contents.
 func vString(vary bool, maxLen int) string {
